@@ -322,9 +322,11 @@ func genFrameCase(r *kit.Rand, thorough bool, i int) []string {
 func genEchoCase(r *kit.Rand, thorough bool, i int) []string {
 	var ops []string
 	ka := 0
-	slow := i%50 == 1 // a few sessions run with keepalives on and sleep long enough for some to cross the wire
+	// one session per run (a few in the thorough tier) has keepalives on and sleeps long enough for one to cross
+	// the wire; the timeout is generous (3 s) so that a loaded machine cannot trip it
+	slow := i == 1 || (thorough && i%100 == 1)
 	if slow {
-		ka = 200
+		ka = 3000
 	}
 	ops = append(ops, fmt.Sprintf("cfg %s %s %d %d", genPattern(r), genPattern(r), r.Intn(2), ka))
 	mode := r.Intn(3) // 0 stream only, 1 batch only, 2 mixed (a stream point between batches is a stream point)
@@ -339,7 +341,9 @@ func genEchoCase(r *kit.Rand, thorough bool, i int) []string {
 			ops = append(ops, "pt "+genPoint(r, thorough).token())
 		} else {
 			b := genBatch(r, thorough)
-			if r.Chance(1, 3) {
+			if k := r.Intn(9); k == 0 && !pendingSnap {
+				ops = append(ops, fmt.Sprintf("ubs %s %d %s", b.token(), r.Intn(len(b.pts)+1), hexBytes(r, thorough)))
+			} else if k < 3 {
 				ops = append(ops, "ub "+b.token())
 			} else {
 				ops = append(ops, "bb "+b.token())
@@ -366,7 +370,7 @@ func genEchoCase(r *kit.Rand, thorough bool, i int) []string {
 			ops = append(ops, "restore "+hexBytes(r, thorough))
 		}
 		if slow && j == n/2 {
-			ops = append(ops, "sleep 250")
+			ops = append(ops, "sleep 1700")
 		}
 	}
 	ops = append(ops, "out")
